@@ -32,9 +32,10 @@ def AA(attrs, els=(), match="", noattrs=False, pat=None):
 # ---------------------------------------------------------------- loop family
 def fam_loop():
     base = [call("NewPolicy"),
-            call("AllowElements", names=["b"]),
+            call("AllowElements", names=["b", "div"]),
             AA(["href"], ["a"]),
             AA(["src"], ["img"]),
+            AA(["title"], []),
             AA(["class"], pat="^custom-", noattrs=True),
             call("AllowElementsMatching", pat="^x-")]
     recipes = []
@@ -53,6 +54,7 @@ def fam_loop():
         "img": [(), (("src", "/i"),)],               # void, never bare
         "custom-x": [(), (("class", "k"),)],         # pattern, bare OK
         "x-y": [(), (("class", "k"),)],              # pattern, no attribute rules: never emitted
+        "d\u0130v": [(), (("title", "t"),)],           # look-alike of an allowed name (U+0130 lower-cases to ASCII i)
         "blink": [()],                               # unknown
         "object": [()],                              # unknown, skip set
         "frame": [()],                               # unknown, skip set, void
